@@ -171,7 +171,14 @@ def gen_tree(rng, depth: int, tag: str | None = None) -> str:
     kids = []
     if depth > 0 and tag not in ("W_t", "W_tab", "W_br", "W_cr", "W_delText"):
         for _ in range(rng.choice([0, 1, 1, 2, 2, 3, 4])):
-            kids.append(gen_tree(rng, depth - 1))
+            sub = None
+            if tag in ("W_sdt", "W_sdtContent", "W_customXml") and rng.random() < 0.7:   # block-level wrappers
+                sub = rng.choice(["W_p", "W_p", "W_sdtContent", "W_tbl", "W_sdt", "W_customXml"])
+            elif tag == "W_p" and rng.random() < 0.5:
+                sub = rng.choice(["W_r", "W_r", "W_hyperlink", "W_sdt", "W_ins"])
+            elif tag == "W_r" and rng.random() < 0.6:
+                sub = rng.choice(["W_t", "W_t", "W_tab", "W_br", "MC_AlternateContent"])
+            kids.append(gen_tree(rng, depth - 1, sub))
     attrs = '[(s "w:val", s "v1")]' if rng.random() < 0.1 else "[]"
     return f"(Elem {tag} {attrs} {coq_str(text) if text else '[]'} {coq_list(kids)} {coq_str(tail) if tail else '[]'})"
 
@@ -181,7 +188,8 @@ def gen_trees(ctx, n: int) -> list[str]:
     out = []
     for _ in range(n):
         shape = rng.random()
-        body_kids = [gen_tree(rng, rng.choice([2, 3, 4, 5]), rng.choice(["W_p", "W_p", "W_tbl", "W_sdt", None]))
+        body_kids = [gen_tree(rng, rng.choice([2, 3, 4, 5]),
+                              rng.choice(["W_p", "W_p", "W_tbl", "W_sdt", "W_customXml", "W_sdtContent", None]))
                      for _ in range(rng.randint(0, 4))]
         body = f"(Elem W_body [] [] {coq_list(body_kids)} [])"
         if shape < 0.85:
